@@ -189,6 +189,21 @@ func (m *bsim) moreOutputs(ctx context.Context, moduleSet bufmodule.ModuleSet, i
 		res.outputs["remote-pins"] = remote
 	}
 
+	// a file whose dependencies reach it through the public imports of a hub, restricted to one type
+	if m.hubLeaves > 0 {
+		for k := 0; k < 4; k++ {
+			hubOut, err := m.publicHubOutput(ctx)
+			if err != nil {
+				return fmt.Errorf("public hub: %w", err)
+			}
+			if prev, ok := res.outputs["filtered-public-hub"]; ok && prev != hubOut {
+				res.outputs["filtered-public-hub"] = prev + "\n--- differs within one execution ---\n" + hubOut
+				break
+			}
+			res.outputs["filtered-public-hub"] = hubOut
+		}
+	}
+
 	// format
 	formatted, err := bufformat.FormatModuleSet(ctx, moduleSet)
 	if err != nil {
